@@ -163,7 +163,7 @@ def verify_function(reg, qual, prop):
             if spec.cases:
                 cases = [(cn, ex.eval_spec(ct, old)) for cn, ct in spec.cases.items()]
                 ctx.oblige(final, "post:cases-exhaustive", or_(*[c for _, c in cases]), "post", fi.node.lineno)
-            for name, e in clause_items(spec.ensures):
+            for name, e in clause_items(list(spec.ensures) + list(spec.ensures_local)):
                 cl = ex.eval_spec(e, final)
                 parts = split_conj(cl)
                 for pi, part in enumerate(parts):
@@ -421,7 +421,7 @@ def package(reg, ctx, res):
                         changed = True
             for a in used_ax:
                 s.add(a)
-            if names & {"hashname", "first_is_hash"}:
+            if names & {"hashname", "first_is_hash", "str_first_char"}:
                 for a in axioms_always:
                     s.add(a)
             body, sq_defs, has_bound_sqrt = ground_sqrt(body)
